@@ -4,7 +4,10 @@ Leg D: spec/Archive/Archive.tla - TLC saves/loads every value of a bounded type 
        chunk operations, under the guard the property demands (ptr + 4 + size <= Len(buffer)).
 Leg B: harness/archive/archive_drv.cpp drives cppcms::archive / archive_traits<T> / serialization_traits<T> for
        46 C++ types (multimap / multiset with runs of equivalent keys included) (and cache_interface / session_interface store_data, fetch_data for the user classes); TLC (ArchiveTrace.tla) recomputes Save(type, value) and Load(type, bytes) for every recorded
-       call and judges every chunk-level read of every truncation / length-field mutation.
+       call and judges every chunk-level read of every truncation / length-field mutation.  ArchiveObj.tla / ArchiveObjTrace.tla:
+       the archive OBJECT as a state machine (buffer, mode, read position); random operation sequences on three real objects
+       (several blobs through one object, mode()/reset() re-reads, interleaved save/load phases, reuse after archive_error,
+       copy / assignment / move) are replayed against the model.
 """
 import os, json
 import fnval
@@ -36,6 +39,12 @@ def describe(c, d, line):
         "read-wrong-data": "returned bytes are not the buffer slice",
         "read-refused-valid": "a chunk that lies inside the archive was refused",
         "eof-wrong": "eof() disagrees with the cursor (cursor moved by a failed read?)",
+        "obj-load-refused": "archive object: a load failed although the buffer holds a well-formed value of that type at the model's read position",
+        "obj-load-wrong-value": "archive object: a load returned a value other than the one the buffer holds at the model's read position",
+        "obj-load-beyond-end": "archive object: a load succeeded although the model's position is at the end of the buffer / at a truncated chunk",
+        "obj-eof": "archive object: eof() disagrees with the model's read position",
+        "obj-str": "archive object: str() is not the buffer the operations built",
+        "obj-mode": "archive object: IO mode differs from the model",
         "died": "process died",
     }.get(c, c)
     b = ev.get("bytes")
@@ -51,6 +60,7 @@ def run(ctx):
         "multimap / multiset are sequences in key order with insertion order among equivalent keys (C++11 23.2.4); Load(Save(v)) is compared element by element and the re-saved bytes must be identical; "
         "for mutated archives whose elements are not in canonical order the order among equivalent keys is not demanded",
         "the driver keeps a shadow cursor (archive::ptr_ is private); eof() is the only direct observation of the cursor",
+        "archive object sequences: saves only in save mode and loads only in load mode (the API does not enforce it; operator& dispatches on mode()); a moved-from object is re-initialised before reuse",
         "hooks flavour (no ASan): out-of-archive reads are judged from (ptr,size,buflen) and the returned bytes, not from a sanitizer",
     ]
     W = int(os.environ.get("VERIF_WORKERS", "16"))      # TLC workers for Leg D
@@ -63,6 +73,9 @@ def run(ctx):
         ctx.design("Archive/Archive.tla", "ArchiveV.cfg", workers=W, timeout=1500, heap="6g", note="all values depth<=2 width<=2 + every truncation")
         ctx.design("Archive/Archive.tla", "ArchiveVrich.cfg", workers=W, timeout=1500, heap="6g", note="depth<=2 width<=1, pairs/structs/maps over all depth-1 types (350k values), whole archives")
         ctx.design("Archive/Archive.tla", "ArchiveC.cfg", workers=W, timeout=1500, heap="6g", note="<=3 chunks, every boundary length, every truncation, every read sequence")
+    # the archive object as a state machine: every operation sequence on two objects (ghost item lists: Rep, ReadBack, Rewinds)
+    ctx.design("Archive/ArchiveObj.tla", "ArchiveObj_quick.cfg" if q else "ArchiveObj.cfg", workers=W, timeout=600, heap="6g",
+               note="archive object state machine: save/load/mode/str/reset/copy on 2 objects, 5 blobs")
     # the model must see the comparison of the pinned commit (ptr+size >= size()) as unsafe
     ctx.design("Archive/Archive.tla", "ArchiveC_c717.cfg", workers=4, timeout=300, expect_violation="InBounds",
                extra=["-noGenerateSpecTE"], count=False, note="self-test: GuardMode=c717 violates InBounds")
@@ -76,6 +89,7 @@ def run(ctx):
         runs.append(("rt", 40 if q else 150, 0, s))
         runs.append(("mut", 3 if q else 8, 15 if q else 40, s))
     runs.append(("wrap", 20 if q else 200))
+    objruns = [("obj", 150 if q else 1500, 60 if q else 80, s) for s in range(3 if q else 12)]
     traces = []
     for i, spec in enumerate(runs):
         t = os.path.join(ctx.work, "c19-%d.ndjson" % i)
@@ -90,7 +104,22 @@ def run(ctx):
                     ctx.seen(ln[:90])
                 if i < 3 and n in (1, 2):
                     ctx.sample({"driver": list(spec), "event": ln.strip()[:400]})
+    otraces = []
+    for i, spec in enumerate(objruns):
+        t = os.path.join(ctx.work, "c19-obj-%d.ndjson" % i)
+        rc, out, err = ctx.run_harness(exe, spec, trace=t, timeout=900)
+        if rc != 0:
+            ctx.undecided.append("archive_drv %s failed rc=%s %s" % (spec, rc, err[-500:]))
+            continue
+        otraces.append(t)
+        with open(t) as f:
+            for n, ln in enumerate(f):
+                if n < 3000:
+                    ctx.seen(ln[:90])
+                if i == 0 and n in (5, 6):
+                    ctx.sample({"driver": list(spec), "event": ln.strip()[:300]})
     results = fnval.judge_many(ctx, "Archive/ArchiveTrace.tla", "ArchiveTrace.cfg", traces, threads=6)
+    results += fnval.judge_many(ctx, "Archive/ArchiveObjTrace.tla", "ArchiveObjTrace.cfg", otraces, threads=6)
     drift = {}
     for res in results:
         for x in res["rejects"]:
